@@ -37,6 +37,18 @@ theorem paths_certified : pathsOk W (canonObjs W) = true ∧ pathsCover W = true
 registration of that role. -/
 theorem props_certified : propsOk W (canonObjs W) = true := by decide +kernel
 
+/-- (round 3) The constructors a caller may run himself with the registered classes handed in — a
+free-standing `Contour(pointClass=…)`, `Glyph(contourClass=…, pointClass=…, …)`, as an object of defcon's own
+class or of the registered one — are symbolic objects of the certificate, and the keywords handed in are exactly the
+class keywords the regenerated `__init__` takes. -/
+theorem free_roots_certified : freeRootsOk W (canonObjs W) = true := by decide +kernel
+
+/-- (round 3) Every entry point of the regenerated table that accepts an object (`insert*`, `append*`, the list
+setters, `insertGlyph`) is catalogued with the role of that object; its delegations end in a method that stores the
+object as it is, converts it unless `isinstance(x, <guard>)`, or rebuilds it — where guard and factory are sites of the
+same class catalogued for the same role; for anchors, guidelines and glyphs it does not store as it is. -/
+theorem entries_certified : entriesOk W = true := by decide +kernel
+
 /-! ## 1. Parametricity: the wiring never inspects the class -/
 
 /-- For EVERY wiring, configuration, symbolic object and site: interpreting the symbolic class at the
@@ -194,6 +206,104 @@ theorem all_roles_on_paths (r : Role) : ∃ p ∈ paths, stepsFor p.1 r ≠ [] :
   obtain ⟨p, hp, hne⟩ := h2
   exact ⟨p, hp, hne⟩
 
+/-! ## 4. Free-standing objects and objects handed in (round 3) -/
+
+/-- free_standing_flow.  A contour that is in no glyph, a glyph that is in no layer: for every configuration, for each
+of the constructors of `freeRoots` called by the user with the registered classes handed in (the object itself being of
+defcon's own class or of the registered class), every chain of creation sites from that object to an object `o` and
+every site of `o`'s class catalogued as creating (or guarding) role `r`: the site uses exactly the class expected for
+`r`.  (Point-level API, pens, dict appends, reversal … of free-standing objects create registered classes.) -/
+theorem free_standing_flow (cfg : Cfg) (c : CName) (aself : AVal) (kws : List (Ident × Role)) (v : Val)
+    (hm : (c, aself, kws) ∈ freeRoots) (hv : interp cfg aself = some v)
+    (chain : List Site) (o : Obj) (s : Site) (r : Role)
+    (hin : ∀ x ∈ chain, x ∈ W.sites) (hr : reachFrom W (freeRoot W cfg c v kws) chain = some o)
+    (hs : s ∈ W.sites) (hown : s.owner = o.cd)
+    (hd : dispOf s.id = some (.handedOut r) ∨ dispOf s.id = some (.guard r)) :
+    classAt W o s = some (expected cfg r) := by
+  obtain ⟨ao, hao, hmem⟩ := freeRootsOk_mem free_roots_certified hm
+  rw [freeRoot_interp cfg W c aself v kws hv, hao] at hr
+  exact flow_from_member wiring_certified cfg ao hmem chain o s r hin hr hs hown hd
+
+/-- free_standing_is_reached.  A glyph / contour of the REGISTERED class that the user constructs himself with the
+registered classes handed in is, as far as classes go, the very object the font makes through its own factories: same
+class, same slots — for every configuration. -/
+theorem free_standing_is_reached (cfg : Cfg) :
+    freeRoot W cfg "Glyph" (expected cfg .glyph) glyphKw = reachIds W cfg toGlyph ∧
+    freeRoot W cfg "Contour" (expected cfg .contour) contourKw = reachIds W cfg toContour := by
+  have hg : interp cfg (.paramOr .glyph "Glyph") = some (expected cfg .glyph) := interp_paramOr_dflt cfg .glyph
+  have hc : interp cfg (.paramOr .contour "Contour") = some (expected cfg .contour) := interp_paramOr_dflt cfg .contour
+  constructor
+  · rw [freeRoot_interp cfg W "Glyph" _ _ glyphKw hg]
+    cases hv : toGlyph.mapM W.site with
+    | none => exact absurd hv (by decide +kernel)
+    | some chain =>
+      unfold reachIds
+      rw [hv]
+      show _ = reach W cfg chain
+      rw [reach_interp wiring_certified cfg chain (mapM_site_mem hv)]
+      have : afreeRoot W "Glyph" (.paramOr .glyph "Glyph") glyphKw = areachFrom W (aroot W) chain := by
+        have h2 : (toGlyph.mapM W.site).map (areachFrom W (aroot W)) = some (afreeRoot W "Glyph" (.paramOr .glyph "Glyph") glyphKw) := by
+          decide +kernel
+        rw [hv] at h2
+        simpa using h2.symm
+      rw [this]
+  · rw [freeRoot_interp cfg W "Contour" _ _ contourKw hc]
+    cases hv : toContour.mapM W.site with
+    | none => exact absurd hv (by decide +kernel)
+    | some chain =>
+      unfold reachIds
+      rw [hv]
+      show _ = reach W cfg chain
+      rw [reach_interp wiring_certified cfg chain (mapM_site_mem hv)]
+      have : afreeRoot W "Contour" (.paramOr .contour "Contour") contourKw = areachFrom W (aroot W) chain := by
+        have h2 : (toContour.mapM W.site).map (areachFrom W (aroot W)) = some (afreeRoot W "Contour" (.paramOr .contour "Contour") contourKw) := by
+          decide +kernel
+        rw [hv] at h2
+        simpa using h2.symm
+      rw [this]
+
+/-- foreign_objects_converted.  For every configuration, every entry point `e` of the sources that accepts an
+object (contour, component, point, anchor, guideline, glyph; `insert*`, `append*`, the list setters), followed through
+its delegations to the method `e'` that does the work, every object `o` of that method's class reachable by any chain of
+creation sites, and an object of ANY class `given` handed in (defcon's class, the registered class, an unrelated
+subclass, …):
+* either `e'` stores the very object (`asIs`) — the model says so for contours, components and points, and ONLY for
+  those: for anchors, guidelines and glyphs `e'` does not adopt;
+* or what is stored is an instance of the class expected for the role: the very object when it already was an
+  instance of that class, otherwise a NEW object of exactly the expected class (for `Layer.insertGlyph` always a new
+  one). -/
+theorem foreign_objects_converted (cfg : Cfg) (chain : List Site) (o : Obj) (e : Entry) (given : Val)
+    (hin : ∀ x ∈ chain, x ∈ W.sites) (hr : reach W cfg chain = some o) (he : e ∈ W.entries) :
+    ∃ r e', entryRole e.id = some r ∧ resolveEntry W 4 e = some e' ∧ (r ∈ convertedRoles → e'.how ≠ .adopt) ∧
+      (e'.owner = o.cd →
+        (e'.how = .adopt ∧ store W o e' given = some .asIs) ∨
+        (e'.how ≠ .adopt ∧ ∃ st, store W o e' given = some st ∧
+          isInstance (st.cls given) (expected cfg r) = true ∧
+          (st = .asIs ∧ isInstance given (expected cfg r) = true ∨
+           st = .rebuilt (expected cfg r) ∧ (isInstance given (expected cfg r) = false ∨ ∃ f, e'.how = .rebuild f)))) := by
+  obtain ⟨r, e', hrole, hres, _, _, hok, hconv⟩ := entriesOk_entry entries_certified he
+  refine ⟨r, e', hrole, hres, hconv, ?_⟩
+  intro hown
+  exact store_converts hok hown (fun s hs hso hd => slot_flow_identity cfg chain o s r hin hr hs hso hd) given
+
+/-- … and the same for the entry points of a FREE-STANDING glyph or contour (one the user constructed with the
+registered classes handed in, or anything created from it). -/
+theorem foreign_objects_converted_free (cfg : Cfg) (c : CName) (aself : AVal) (kws : List (Ident × Role)) (v : Val)
+    (hm : (c, aself, kws) ∈ freeRoots) (hv : interp cfg aself = some v)
+    (chain : List Site) (o : Obj) (e : Entry) (given : Val)
+    (hin : ∀ x ∈ chain, x ∈ W.sites) (hr : reachFrom W (freeRoot W cfg c v kws) chain = some o) (he : e ∈ W.entries) :
+    ∃ r e', entryRole e.id = some r ∧ resolveEntry W 4 e = some e' ∧
+      (e'.owner = o.cd → e'.how ≠ .adopt →
+        ∃ st, store W o e' given = some st ∧ isInstance (st.cls given) (expected cfg r) = true) := by
+  obtain ⟨r, e', hrole, hres, _, _, hok, _⟩ := entriesOk_entry entries_certified he
+  refine ⟨r, e', hrole, hres, ?_⟩
+  intro hown hna
+  rcases store_converts (cfg := cfg) hok hown
+    (fun s hs hso hd => free_standing_flow cfg c aself kws v hm hv chain o s r hin hr hs hso hd) given with h | h
+  · exact absurd h.1 hna
+  · obtain ⟨_, st, hst, hi, _⟩ := h
+    exact ⟨st, hst, hi⟩
+
 /-! ## Non-vacuity: concrete configurations, chains and sites meeting the hypotheses
 (`cfgA`: only points (class 3) and anchors (class 8) customised; `cfgAll`: everything, class 1) -/
 
@@ -238,7 +348,74 @@ example : (reachIds W cfgA (toContour ++ ["Contour.reverse"])).bind (fun o => pr
 
 /-- the path table names the creation paths of the property -/
 example : paths.map (·.1) = ["load", "create", "insertGlyph", "dictAppend", "factory", "penDraw", "reverse",
-    "pointInsertion", "decompose", "reload", "deserialize"] := by decide
+    "pointInsertion", "decompose", "reload", "deserialize",
+    "copyForeign", "deserializeParts", "freeStanding", "stalePen"] := by decide
+
+/-! ### round 3: free-standing objects, objects handed in -/
+
+/-- a free-standing plain `Contour(pointClass=<registered>)`, reversed: its points are of the registered class, the
+scratch contour is a plain `Contour` (what the user constructed), not the contour class of any font -/
+example : ((W.site "Contour.reverse").bind fun rev => (W.site "Contour.addPoint").bind fun ap =>
+      (reachFrom W (freeRoot W cfgAll "Contour" (.builtin "Contour") contourKw) [rev, rev]).bind fun o =>
+        (classAt W o ap).map fun k => (o.self, k))
+    = some (.builtin "Contour", .user 1 "Point") := by decide +kernel
+
+/-- the hypotheses of `free_standing_flow` are met: a glyph of defcon's own class constructed by the user, its
+anchor factory -/
+example : (("Glyph", AVal.const "Glyph", glyphKw) ∈ freeRoots) ∧ interp cfgA (.const "Glyph") = some (.builtin "Glyph") ∧
+    ((W.site "Glyph.instantiateAnchor").bind fun s =>
+      (freeRoot W cfgA "Glyph" (.builtin "Glyph") glyphKw).bind fun o => classAt W o s) = some (.user 8 "Anchor") := by
+  decide +kernel
+
+/-- `free_standing_is_reached` speaks of objects that exist: the user-constructed glyph of the registered class -/
+example : (freeRoot W cfgAll "Glyph" (expected cfgAll .glyph) glyphKw).map (fun o => (o.cd, o.self))
+    = some ("Glyph", .user 1 "Glyph") ∧ (reachIds W cfgAll toGlyph).isSome = true := by decide +kernel
+
+/-- the hypotheses of `foreign_objects_converted_free` are met: `appendAnchor` of a glyph of defcon's own class that
+the user constructed with the registered classes handed in rebuilds a plain `Anchor` with the registered class -/
+example : ((W.entry "Glyph.appendAnchor").bind (resolveEntry W 4)).bind (fun e =>
+      (freeRoot W cfgA "Glyph" (.builtin "Glyph") glyphKw).bind fun o =>
+        (store W o e (.builtin "Anchor")).map fun st => (decide (e.owner = o.cd), decide (e.how ≠ .adopt), st))
+    = some (true, true, .rebuilt (.user 8 "Anchor")) := by decide +kernel
+
+/-- the entry points of the regenerated table -/
+example : W.entries.length = 19 ∧ (W.entries.filter fun e => e.how = .adopt).map (·.id)
+    = ["Contour.insertPoint", "Glyph.insertContour", "Glyph.insertComponent"] := by decide +kernel
+
+/-- `appendAnchor` on a font whose anchor class is customised (class 8): a plain `Anchor` is rebuilt as class 8, an
+object of class 8 is kept, an object of an unrelated subclass (class 99) is rebuilt … -/
+example : storeVia W cfgA toGlyph "Glyph.appendAnchor" (.builtin "Anchor") = some (.rebuilt (.user 8 "Anchor")) ∧
+    storeVia W cfgA toGlyph "Glyph.appendAnchor" (.user 8 "Anchor") = some .asIs ∧
+    storeVia W cfgA toGlyph "Glyph._set_anchors" (.user 99 "Anchor") = some (.rebuilt (.user 8 "Anchor")) := by
+  decide +kernel
+
+/-- … while guidelines are not customised in `cfgA`: any `Guideline` subclass is kept as it is; a glyph is always
+rebuilt; a contour always kept -/
+example : storeVia W cfgA toGlyph "Glyph.appendGuideline" (.user 99 "Guideline") = some .asIs ∧
+    storeVia W cfgA [] "Font.appendGuideline" (.builtin "Guideline") = some .asIs ∧
+    storeVia W cfgAll toLayer "Font.insertGlyph" (.user 1 "Glyph") = some (.rebuilt (.user 1 "Glyph")) ∧
+    storeVia W cfgAll toGlyph "Glyph.appendContour" (.builtin "Contour") = some .asIs := by decide +kernel
+
+/-- the hypotheses of `foreign_objects_converted` are met (anchors are a converted role, `insertAnchor` is an entry
+point that resolves to itself and belongs to the reachable glyph) -/
+example : Role.anchor ∈ convertedRoles ∧ (∃ e ∈ W.entries, e.id = "Glyph.insertAnchor" ∧ resolveEntry W 4 e = some e ∧
+    e.owner = "Glyph") ∧ (reachIds W cfgA toGlyph).map (·.cd) = some "Glyph" := by
+  refine ⟨by decide, ?_, by decide +kernel⟩
+  cases he : W.entry "Glyph.insertAnchor" with
+  | none => exact absurd he (by decide +kernel)
+  | some e =>
+    have hm := entry_some he
+    refine ⟨e, hm.1, hm.2, ?_, ?_⟩
+    · have : (W.entry "Glyph.insertAnchor").bind (fun e => (resolveEntry W 4 e).map fun e' => decide (e' = e)) = some true := by
+        decide +kernel
+      rw [he] at this
+      simp only [Option.bind_some] at this
+      cases hres : resolveEntry W 4 e with
+      | none => simp [hres] at this
+      | some e' => simp [hres] at this; rw [this]
+    · have : (W.entry "Glyph.insertAnchor").map (·.owner) = some "Glyph" := by decide +kernel
+      rw [he] at this
+      simpa using this
 
 /-! ## The certificate discriminates: wirings with a seeded fault are rejected, and the model exhibits
 the wrong class -/
@@ -263,6 +440,20 @@ example : rejects (mapSite W "Contour.reverse" (dropKw "pointClass")) = true ∧
       = some (.user 3 "Point") ∧
     classVia (mapSite W "Contour.reverse" (dropKw "pointClass")) cfgA (toContour ++ ["Contour.reverse"]) "Contour.addPoint"
       = some (.builtin "Point") := by decide +kernel
+
+/-- (round 3) `insertAnchor` stops converting (`self._anchors.insert(index, anchor)` with whatever came): the entry
+certificate is rejected -/
+example : entriesOk (mapEntry W "Glyph.insertAnchor" .adopt) = false := by decide +kernel
+
+/-- (round 3) `Font.insertGuideline` converts through the GLYPH-less anchor factory / tests against another slot:
+rejected -/
+example : entriesOk (mapEntry W "Font.insertGuideline" (.convertUnless "Font.insertGuideline?isinstance" "Font.instantiateInfo")) = false := by
+  decide +kernel
+
+/-- (round 3) `Contour.__init__` ignores the `pointClass` it is handed (`pointClass = Point`): the free-standing
+roots are no longer certified -/
+example : rejects (mapInit W "Contour" fun i => i.map fun st =>
+    if st = .dflt "pointClass" "Point" then .force "pointClass" "Point" else st) = true := by decide +kernel
 
 /-- `anchorClass = Anchor` unconditionally in `Glyph.__init__` (the registration is overwritten) -/
 example : rejects (mapInit W "Glyph" fun i => i.map fun st =>
